@@ -400,9 +400,12 @@ func (o *mxOracle) checkSnap(pls map[int]*m3uMedia, bodies map[string]string, ra
 	}
 }
 
-// wellFormed: per-track non-decreasing DTS (the quantifier of C01–C03).
+// wellFormed: per-track non-decreasing DTS, start timestamps not below -10 s (the quantifier of C01–C03).
 func (o *mxOracle) wellFormed() bool {
-	for _, w := range o.written {
+	for ti, w := range o.written {
+		if len(w) > 0 && w[0].dts < -10*int64(o.r.tracks[ti].rate) {
+			return false
+		}
 		for i := 1; i < len(w); i++ {
 			if w[i].dts < w[i-1].dts {
 				return false
